@@ -15,6 +15,12 @@ CHECKS = {
              'the model is compared with the real decoder on exhaustive short headers, random and mutated inputs; CONNECT over-read is a known finding.',
         design_ref='§5 C02', technique='Lean 4 proof (total functions, well-founded loops) + differential correspondence',
         note=TB + 'Ownership (no aliasing of the input buffer) is validated by the harness only.'),
+    'C18': dict(
+        text='Never-zero ids, the closed form of the allocation sequence and pairwise distinctness of any 65535 consecutive ids from every start state '
+             '(arithmetic proof, no enumeration), reset, and the refinement of the packet store to a map id -> last packet for every history are Lean theorems; '
+             'the model is compared with the real session package over all 65536 counter states, full allocation cycles and bounded-exhaustive + random store histories.',
+        design_ref='§5 C18', technique='Lean 4 proof (closed form + refinement by induction over histories) + differential correspondence',
+        note=TB + 'Concurrent callers: sequential model proved; atomicity rests on the mutex (checked structurally / by the race detector), labelled partial.'),
 }
 _PENDING = 'check not built yet in this revision (planned, see DESIGN.md §10); nothing is claimed'
 NOT_APPLICABLE = {f'C{n:02d}': _PENDING for n in range(1, 21) if f'C{n:02d}' not in CHECKS}
